@@ -239,6 +239,15 @@ func runC13(w *World, r *Report) {
 			})
 		}
 		_ = n
+		// path clause: the error is not only "used" but stands between its call and every success return
+		nf := 0
+		for _, fn := range w.RepoFuncs("compose", "schema", "internal", "flow", "callbacks", "components", "utils") {
+			nf++
+			for _, d := range errDroppedReturns(fn) {
+				r.Fail("C13.no-dropped-error", fmt.Sprintf("%s: success return after %s", w.fname(fn), calleeFullName(d.call)), d.ret.Pos(), d.why+" — the callee's failure is reported as success")
+			}
+		}
+		r.OK("C13.no-dropped-error", fmt.Sprintf("success returns of %d module functions", nf), token.NoPos, "every `return …, nil` reachable from an error-yielding call is on that error's nil side (or on a sentinel-tested side)")
 	}
 
 	// the wrappers that add the node key / stream-wrapper name keep what they were given: they may extend the error
